@@ -249,10 +249,27 @@ func (c *Client) Abort(reset error) {
 	if c.cancel != nil {
 		c.cancel()
 	}
+	if c.Raw == nil {
+		return // the dial was refused: there is no connection
+	}
 	if reset != nil {
 		c.Raw.Reset(reset)
 	} else {
 		c.Raw.Close()
+	}
+}
+
+// RawWrite writes bytes on the transport (no TLS); a refused dial is ignored.
+func (c *Client) RawWrite(b []byte) {
+	if c.Raw != nil {
+		c.Raw.Write(b)
+	}
+}
+
+// Deliver hands up to n staged bytes to the proxy (manual mode); a refused dial is ignored.
+func (c *Client) Deliver(n int) {
+	if c.Raw != nil {
+		c.Raw.Deliver(n)
 	}
 }
 
